@@ -1,24 +1,290 @@
 package main
 
 import (
+	"fmt"
 	"go/types"
+	"sync"
 
 	"golang.org/x/tools/go/ssa"
 )
 
-// Scheduler placeholder (goroutines, channels, locks). Single-threaded semantics for now.
+// Cooperative scheduler: every interpreted goroutine runs on its own native goroutine, but only the one
+// holding the baton executes. Context switches happen only at synchronisation operations (channel
+// operations, select, mutex/cond operations, go statements, verifrt.Yield); which runnable goroutine
+// continues is a decision of the path (bounded by a preemption budget).
 
-type goroutine struct{ id int }
+type goroutine struct {
+	id       int
+	resume   chan struct{}
+	blocked  func() bool // nil = runnable
+	why      string
+	done     bool
+	depth    int
+	curFrame *frame
+	locks    map[*Value]bool
+}
 
-type scheduler struct{}
+type killGoroutine struct{}
 
-func (s *scheduler) shutdown()            {}
-func (s *scheduler) finishMain(in *Interp) {}
+type lockState struct {
+	holder  *goroutine
+	readers map[*goroutine]int
+}
+
+type condWaiter struct {
+	g     *goroutine
+	woken bool
+}
+
+type scheduler struct {
+	in       *Interp
+	gs       []*goroutine
+	cur      *goroutine
+	mainG    *goroutine
+	fatal    interface{}
+	killed   bool
+	preempts int
+	wg       sync.WaitGroup
+	timers   []*Chan
+	locks    map[*Value]*lockState
+	conds    map[*Value][]*condWaiter
+	accesses map[*Value]*accessInfo
+}
+
+const maxPreempts = 2
+
+func (in *Interp) ensureSched() *scheduler {
+	if in.sched == nil {
+		s := &scheduler{in: in, locks: map[*Value]*lockState{}, conds: map[*Value][]*condWaiter{}, accesses: map[*Value]*accessInfo{}}
+		g := &goroutine{id: 0, resume: make(chan struct{}, 1), locks: map[*Value]bool{}}
+		s.gs = []*goroutine{g}
+		s.cur = g
+		s.mainG = g
+		in.sched = s
+		in.gor = g
+	}
+	return in.sched
+}
+
+func (s *scheduler) runnable() []*goroutine {
+	var out []*goroutine
+	for _, g := range s.gs {
+		if g.done {
+			continue
+		}
+		if g.blocked == nil || g.blocked() {
+			out = append(out, g)
+		}
+	}
+	return out
+}
+
+// yield gives other goroutines a chance to run. blocked != nil: the current goroutine cannot continue
+// until blocked() holds.
+func (s *scheduler) yield(blocked func() bool, why string) {
+	in := s.in
+	g := s.cur
+	g.blocked = blocked
+	g.why = why
+	rs := s.runnable()
+	if len(rs) == 0 {
+		s.deadlock()
+		return
+	}
+	// the current goroutine, if runnable, is option 0 (no preemption)
+	var opts []*goroutine
+	selfRunnable := false
+	for _, r := range rs {
+		if r == g {
+			selfRunnable = true
+		}
+	}
+	if selfRunnable {
+		opts = append(opts, g)
+		if s.preempts < maxPreempts {
+			for _, r := range rs {
+				if r != g {
+					opts = append(opts, r)
+				}
+			}
+		}
+	} else {
+		opts = rs
+	}
+	next := opts[0]
+	if len(opts) > 1 {
+		next = opts[in.choose(len(opts), "sched")]
+	}
+	if next == g {
+		g.blocked = nil
+		return
+	}
+	if selfRunnable {
+		s.preempts++
+	}
+	s.switchTo(next)
+	g.blocked = nil
+}
+
+// switchTo hands the baton to next and parks the current goroutine until it is resumed.
+func (s *scheduler) switchTo(next *goroutine) {
+	in := s.in
+	g := s.cur
+	g.depth, g.curFrame = in.depth, in.curFrame
+	s.cur = next
+	in.gor = next
+	in.depth, in.curFrame = next.depth, next.curFrame
+	next.blocked = nil
+	next.resume <- struct{}{}
+	s.park(g)
+}
+
+func (s *scheduler) park(g *goroutine) {
+	<-g.resume
+	in := s.in
+	if g == s.mainG {
+		if s.fatal != nil {
+			f := s.fatal
+			s.fatal = nil
+			s.cur = g
+			in.gor = g
+			in.depth, in.curFrame = g.depth, g.curFrame
+			panic(f)
+		}
+		return
+	}
+	if s.killed {
+		panic(killGoroutine{})
+	}
+}
+
+// deadlock: nobody can run.
+func (s *scheduler) deadlock() {
+	msg := "deadlock: all goroutines are blocked:"
+	for _, g := range s.gs {
+		if !g.done {
+			msg += fmt.Sprintf(" g%d(%s)", g.id, g.why)
+		}
+	}
+	s.raiseOnMain(deadlockPanic{msg})
+}
+
+type deadlockPanic struct{ msg string }
+
+// raiseOnMain makes the main (worker) goroutine panic with p.
+func (s *scheduler) raiseOnMain(p interface{}) {
+	if s.cur == s.mainG {
+		panic(p)
+	}
+	g := s.cur
+	s.fatal = p
+	g.depth, g.curFrame = s.in.depth, s.in.curFrame
+	s.mainG.resume <- struct{}{}
+	// park forever (until the path is torn down)
+	<-g.resume
+	panic(killGoroutine{})
+}
+
+func (in *Interp) goStmt(fr *frame, instr *ssa.Go, fn Value, args []Value) {
+	s := in.ensureSched()
+	if len(s.gs) > 8 {
+		in.abort("unwinding: more than 8 goroutines")
+	}
+	g := &goroutine{id: len(s.gs), resume: make(chan struct{}, 1), locks: map[*Value]bool{}}
+	s.gs = append(s.gs, g)
+	s.wg.Add(1)
+	go func() {
+		defer s.wg.Done()
+		<-g.resume
+		if s.killed {
+			return
+		}
+		defer func() {
+			r := recover()
+			g.done = true
+			if _, ok := r.(killGoroutine); ok {
+				return
+			}
+			if r != nil {
+				// engine-level event or uncaught Go panic in this goroutine: deliver it to the worker
+				s.fatal = r
+				s.mainG.resume <- struct{}{}
+				return
+			}
+			// normal termination: hand the baton to somebody else
+			rs := s.runnable()
+			if len(rs) == 0 {
+				if !s.mainG.done {
+					msg := "deadlock: all goroutines are blocked after one finished:"
+					for _, x := range s.gs {
+						if !x.done {
+							msg += fmt.Sprintf(" g%d(%s)", x.id, x.why)
+						}
+					}
+					s.fatal = deadlockPanic{msg}
+					s.mainG.resume <- struct{}{}
+				}
+				return
+			}
+			next := rs[0]
+			if len(rs) > 1 {
+				// choosing among several runnable goroutines is a decision; it must be taken on a
+				// goroutine that may panic with engine events: do it here under recover
+				func() {
+					defer func() {
+						if r2 := recover(); r2 != nil {
+							s.fatal = r2
+							next = s.mainG
+						}
+					}()
+					next = rs[in.choose(len(rs), "sched")]
+				}()
+			}
+			s.cur = next
+			in.gor = next
+			in.depth, in.curFrame = next.depth, next.curFrame
+			next.blocked = nil
+			next.resume <- struct{}{}
+		}()
+		in.depth = 0
+		in.call(nil, instr.Pos(), fn, args)
+	}()
+	// starting a goroutine is a scheduling point
+	s.yield(nil, "go")
+}
+
+func (s *scheduler) shutdown() {
+	s.killed = true
+	for _, g := range s.gs {
+		if g != s.mainG && !g.done {
+			select {
+			case g.resume <- struct{}{}:
+			default:
+			}
+		}
+	}
+	s.wg.Wait()
+}
+
+func (s *scheduler) finishMain(in *Interp) {
+	s.mainG.done = true
+}
+
+// ---- channels
+
+type chanItem struct {
+	v     Value
+	taken bool
+}
 
 type Chan struct {
-	buf    []Value
-	cap    int
-	closed bool
+	buf     []Value
+	cap     int
+	closed  bool
+	sendq   []*chanItem // pending unbuffered sends
+	recvw   int         // goroutines currently blocked receiving on this channel
+	isTimer bool
+	fired   bool
 }
 
 func (c *Chan) Len() int {
@@ -36,33 +302,73 @@ func (c *Chan) Cap() int {
 
 func (in *Interp) makeChan(n int) *Chan { return &Chan{cap: n} }
 
+func (c *Chan) canRecv() bool { return len(c.buf) > 0 || len(c.sendq) > 0 || c.closed }
+
+func (c *Chan) doRecv(elem types.Type) (Value, bool) {
+	if len(c.buf) > 0 {
+		v := c.buf[0]
+		c.buf = c.buf[1:]
+		// a blocked buffered sender may now proceed (handled by its predicate)
+		return v, true
+	}
+	if len(c.sendq) > 0 {
+		it := c.sendq[0]
+		c.sendq = c.sendq[1:]
+		it.taken = true
+		return it.v, true
+	}
+	return zero(elem), false // closed
+}
+
 func (in *Interp) chanSend(c *Chan, v Value) {
 	if c == nil {
-		in.abort("deadlock: send on nil channel")
+		in.ensureSched().yield(func() bool { return false }, "send on nil channel")
+		return
 	}
 	if c.closed {
 		in.rtPanic("send on closed channel")
 	}
-	if len(c.buf) >= c.cap {
-		in.abort("unsupported: blocking channel send (scheduler not active)")
+	v = copyVal(v)
+	if c.cap > 0 {
+		if len(c.buf) >= c.cap {
+			if in.sched == nil {
+				in.ensureSched()
+			}
+			in.sched.yield(func() bool { return len(c.buf) < c.cap || c.closed }, "chan send (buffer full)")
+			if c.closed {
+				in.rtPanic("send on closed channel")
+			}
+		}
+		c.buf = append(c.buf, v)
+		if in.sched != nil {
+			in.sched.yield(nil, "chan send")
+		}
+		return
 	}
-	c.buf = append(c.buf, copyVal(v))
+	// unbuffered: rendezvous
+	s := in.ensureSched()
+	it := &chanItem{v: v}
+	c.sendq = append(c.sendq, it)
+	s.yield(func() bool { return it.taken || c.closed }, "chan send (unbuffered)")
+	if !it.taken {
+		in.rtPanic("send on closed channel")
+	}
 }
 
 func (in *Interp) chanRecv(c *Chan, commaOk bool, elem types.Type) Value {
 	if c == nil {
-		in.abort("deadlock: receive on nil channel")
+		in.ensureSched().yield(func() bool { return false }, "receive on nil channel")
+		return nil
 	}
-	var v Value
-	ok := true
-	if len(c.buf) > 0 {
-		v = c.buf[0]
-		c.buf = c.buf[1:]
-	} else if c.closed {
-		v = zero(elem)
-		ok = false
-	} else {
-		in.abort("unsupported: blocking channel receive (scheduler not active)")
+	if !c.canRecv() {
+		s := in.ensureSched()
+		c.recvw++
+		s.yield(func() bool { return c.canRecv() }, "chan receive")
+		c.recvw--
+	}
+	v, ok := c.doRecv(elem)
+	if in.sched != nil {
+		in.sched.yield(nil, "chan receive done")
 	}
 	if commaOk {
 		return Tuple{v, Bool(ok)}
@@ -71,61 +377,263 @@ func (in *Interp) chanRecv(c *Chan, commaOk bool, elem types.Type) Value {
 }
 
 func (in *Interp) chanClose(c *Chan) {
+	if c == nil {
+		in.rtPanic("close of nil channel")
+	}
 	if c.closed {
 		in.rtPanic("close of closed channel")
 	}
 	c.closed = true
 }
 
-// selectOp without an active scheduler: only cases that are ready now can fire.
 func (in *Interp) selectOp(fr *frame, instr *ssa.Select) Value {
-	var ready []int
-	for i, st := range instr.States {
-		ch, _ := fr.get(st.Chan).(*Chan)
-		if ch == nil {
-			continue
-		}
-		if st.Dir == types.RecvOnly {
-			if len(ch.buf) > 0 || ch.closed {
-				ready = append(ready, i)
+	type st struct {
+		ch   *Chan
+		send bool
+	}
+	var states []st
+	for _, s := range instr.States {
+		ch, _ := fr.get(s.Chan).(*Chan)
+		states = append(states, st{ch, s.Dir != types.RecvOnly})
+	}
+	readyList := func() []int {
+		var r []int
+		for i, s := range states {
+			if s.ch == nil {
+				continue
 			}
-		} else {
-			if ch.closed || len(ch.buf) < ch.cap {
-				ready = append(ready, i)
+			if s.send {
+				if s.ch.closed || (s.ch.cap > 0 && len(s.ch.buf) < s.ch.cap) || (s.ch.cap == 0 && s.ch.recvw > 0) {
+					r = append(r, i)
+				}
+			} else if s.ch.canRecv() {
+				r = append(r, i)
 			}
 		}
+		return r
+	}
+	ready := readyList()
+	if len(ready) == 0 && instr.Blocking {
+		sc := in.ensureSched()
+		for _, s := range states {
+			if s.ch != nil && !s.send {
+				s.ch.recvw++
+			}
+		}
+		sc.yield(func() bool { return len(readyList()) > 0 }, "select")
+		for _, s := range states {
+			if s.ch != nil && !s.send {
+				s.ch.recvw--
+			}
+		}
+		ready = readyList()
 	}
 	chosen := -1
 	if len(ready) > 0 {
 		chosen = ready[in.choose(len(ready), "select")]
-	} else if instr.Blocking {
-		in.abort("unsupported: blocking select with no ready case (scheduler not active)")
 	}
 	r := Tuple{mkInt(int64(chosen)), tFalse}
-	for i, st := range instr.States {
-		if st.Dir != types.RecvOnly {
+	for i, s := range instr.States {
+		if s.Dir != types.RecvOnly {
 			if i == chosen {
-				in.chanSend(fr.get(st.Chan).(*Chan), fr.get(st.Send))
+				ch := states[i].ch
+				if ch.closed {
+					in.rtPanic("send on closed channel")
+				}
+				v := copyVal(fr.get(s.Send))
+				if ch.cap > 0 {
+					ch.buf = append(ch.buf, v)
+				} else {
+					ch.sendq = append(ch.sendq, &chanItem{v: v})
+				}
 			}
 			continue
 		}
-		elem := underlying(st.Chan.Type()).(*types.Chan).Elem()
+		elem := underlying(s.Chan.Type()).(*types.Chan).Elem()
 		if i == chosen {
-			v := in.chanRecv(fr.get(st.Chan).(*Chan), true, elem).(Tuple)
-			r[1] = v[1]
-			r = append(r, v[0])
+			v, ok := states[i].ch.doRecv(elem)
+			r[1] = Bool(ok)
+			r = append(r, v)
 		} else {
 			r = append(r, zero(elem))
 		}
 	}
+	if in.sched != nil && chosen >= 0 {
+		in.sched.yield(nil, "select done")
+	}
 	return r
 }
 
-func (in *Interp) goStmt(fr *frame, instr *ssa.Go, fn Value, args []Value) {
-	in.abort("unsupported: go statement (scheduler not active)")
+// ---- timers (environment): time.After / time.NewTimer channels fire only when the harness says so
+
+func (in *Interp) newTimerChan() *Chan {
+	s := in.ensureSched()
+	c := &Chan{cap: 1, isTimer: true}
+	s.timers = append(s.timers, c)
+	return c
 }
 
-func (in *Interp) noteAccess(p *Value, write bool) {}
+func (in *Interp) pendingTimers() []*Chan {
+	if in.sched == nil {
+		return nil
+	}
+	var out []*Chan
+	for _, t := range in.sched.timers {
+		if !t.fired {
+			out = append(out, t)
+		}
+	}
+	return out
+}
 
-func (in *Interp) mutexLock(m *Value, read bool)   {}
-func (in *Interp) mutexUnlock(m *Value, read bool) {}
+// ---- mutexes and condition variables
+
+func (in *Interp) lockOf(m *Value) *lockState {
+	s := in.ensureSchedLite()
+	l := s.locks[m]
+	if l == nil {
+		l = &lockState{readers: map[*goroutine]int{}}
+		s.locks[m] = l
+	}
+	return l
+}
+
+// ensureSchedLite creates the scheduler bookkeeping without requiring a second goroutine.
+func (in *Interp) ensureSchedLite() *scheduler { return in.ensureSched() }
+
+func (in *Interp) mutexLock(m *Value, read bool) {
+	l := in.lockOf(m)
+	s := in.sched
+	g := s.cur
+	free := func() bool {
+		if read {
+			return l.holder == nil
+		}
+		return l.holder == nil && len(l.readers) == 0
+	}
+	if len(s.gs) > 1 {
+		s.yield(nil, "lock")
+	}
+	if !free() {
+		if l.holder == g || (!read && l.readers[g] > 0 && len(l.readers) == 1 && l.holder == nil) {
+			s.raiseOnMain(deadlockPanic{"deadlock: goroutine locks a mutex it already holds"})
+		}
+		s.yield(free, "mutex lock")
+	}
+	if read {
+		l.readers[g]++
+	} else {
+		l.holder = g
+	}
+	g.locks[m] = true
+}
+
+func (in *Interp) mutexUnlock(m *Value, read bool) {
+	l := in.lockOf(m)
+	s := in.sched
+	g := s.cur
+	if read {
+		// RUnlock by any reader
+		if l.readers[g] > 0 {
+			l.readers[g]--
+			if l.readers[g] == 0 {
+				delete(l.readers, g)
+			}
+		} else {
+			for k := range l.readers {
+				l.readers[k]--
+				if l.readers[k] == 0 {
+					delete(l.readers, k)
+				}
+				break
+			}
+		}
+	} else {
+		if l.holder == nil {
+			in.rtPanic("sync: unlock of unlocked mutex")
+		}
+		l.holder = nil
+	}
+	if l.holder == nil && len(l.readers) == 0 {
+		delete(g.locks, m)
+	}
+	if len(s.gs) > 1 {
+		s.yield(nil, "unlock")
+	}
+}
+
+func (in *Interp) condWait(fr *frame, c *Value) {
+	s := in.ensureSched()
+	st := (*c).(Struct)
+	// sync.Cond{noCopy, L Locker, notify, checker}
+	var L Iface
+	for _, f := range st {
+		if itf, ok := f.(Iface); ok {
+			L = itf
+			break
+		}
+	}
+	w := &condWaiter{g: s.cur}
+	s.conds[c] = append(s.conds[c], w)
+	in.invoke(fr, L, "Unlock")
+	s.yield(func() bool { return w.woken }, "cond wait")
+	in.invoke(fr, L, "Lock")
+}
+
+func (in *Interp) condSignal(c *Value, all bool) {
+	s := in.ensureSched()
+	ws := s.conds[c]
+	for i, w := range ws {
+		if !w.woken {
+			w.woken = true
+			if !all {
+				s.conds[c] = ws[i+1:]
+				return
+			}
+		}
+	}
+	s.conds[c] = nil
+}
+
+// ---- lockset analysis (Eraser style) for tracked objects
+
+type accessInfo struct {
+	lockset map[*Value]bool // intersection of locks held at every access so far (nil = not yet accessed)
+	writer  bool
+	gs      map[int]bool
+	first   string
+}
+
+func (in *Interp) noteAccess(p *Value, write bool) {
+	s := in.sched
+	if s == nil || len(s.gs) < 2 || in.tracked == nil || !in.tracked[p] {
+		return
+	}
+	g := s.cur
+	a := s.accesses[p]
+	if a == nil {
+		a = &accessInfo{gs: map[int]bool{}}
+		s.accesses[p] = a
+	}
+	if a.lockset == nil {
+		a.lockset = map[*Value]bool{}
+		for l := range g.locks {
+			a.lockset[l] = true
+		}
+	} else {
+		for l := range a.lockset {
+			if !g.locks[l] {
+				delete(a.lockset, l)
+			}
+		}
+	}
+	a.gs[g.id] = true
+	a.writer = a.writer || write
+	if len(a.gs) > 1 && a.writer && len(a.lockset) == 0 && in.raceReport == "" {
+		where := ""
+		if in.curFrame != nil {
+			where = in.curFrame.fi.name
+		}
+		in.raceReport = "data race: a tracked location is accessed by several goroutines, at least once for writing, with no common lock (last access in " + where + ")"
+	}
+}
